@@ -1,0 +1,184 @@
+//go:build verif
+
+// Contracts for package smparser, read by /verif/engine (govc). Comment-only.
+
+package smparser
+
+//@ # ---- C11: which application AVPs are acceptable (taken from the property statement) ----
+//@ spec typname(t uint32) string = t == 259 ? "acct" : t == 258 ? "auth" : ""
+//@ # an Acct- / Auth-Application-Id AVP is acceptable for its own code when it carries an Unsigned32 that is the relay
+//@ # id or an application the dictionary supports with the same type
+//@ spec acceptable(a *diam.AVP, typ uint32, d *dict.Parser) bool = a != nil && a.Code == typ && typeis(a.Data, datatype.Unsigned32) &&
+//@      (uint32(a.Data.(datatype.Unsigned32)) == 4294967295 || appsupported(d, uint32(a.Data.(datatype.Unsigned32)), typname(typ)))
+//@
+//@ func (*Application).validate(app, d, appType, appAVP) (failedAVP, err)
+//@   property C11
+//@   requires app != nil && d != nil
+//@   modifies app.id, app.id[len(app.id):cap(app.id)]
+//@   posthint relayorshared.def(d, uint32(appAVP.Data.(datatype.Unsigned32)))
+//@   ensures [C11] nothing_to_check: appAVP == nil ==> err == nil && failedAVP == nil && len(app.id) == old(len(app.id))
+//@   ensures [C11] accepted_iff_acceptable: appAVP != nil ==> (err == nil <==> acceptable(appAVP, appType, d))
+//@   ensures [C11] records_the_id: appAVP != nil && err == nil ==> len(app.id) == old(len(app.id)) + 1 && app.id[old(len(app.id))] == uint32(appAVP.Data.(datatype.Unsigned32))
+//@   ensures [C11] recorded_id_is_shared: appAVP != nil && err == nil && (appType == 258 || appType == 259) ==> relayorshared(d, app.id[old(len(app.id))])
+//@   ensures [C11] rejected_records_nothing: err != nil ==> len(app.id) == old(len(app.id)) && failedAVP == appAVP
+//@   ensures [C11] cause_applies: err != nil ==> (err == ErrNoCommonApplication <==> (appAVP.Code == appType && typeis(appAVP.Data, datatype.Unsigned32)))
+//@   ensures kept: forall i int :: 0 <= i && i < old(len(app.id)) ==> app.id[i] == old(app.id[i])
+//@   ensures appended: grown(app.id, old(app.id))
+//@   ensures untouched_if_rejected: len(app.id) == old(len(app.id)) ==> same(app.id, old(app.id))
+//@   ensures cause: err != nil ==> err == ErrNoCommonApplication || err == ErrMissingApplication || typeis(err, *ErrUnexpectedAVP)
+//@ end
+//@
+//@ spec same(a []uint32, b []uint32) bool = sameslice(a, b) && cap(a) == cap(b)
+//@ # an application id that may become connection metadata: the relay id or one the dictionary supports as acct or auth
+//@ # (opaque in the loops; hint relayorshared.def(d, id) unfolds it)
+//@ hfun relayorshared(d *dict.Parser, id uint32) bool reads dict.Parser.apptype, dict.Parser.appcode, dict.App.Type, map:dict.Parser.apptype, map:dict.Parser.appcode
+//@ hlemma relayorshared: def: forall d *dict.Parser, id uint32 :: relayorshared(d, id) <==> id == 4294967295 || appsupported(d, id, "acct") || appsupported(d, id, "auth")
+//@ spec listok(l []*diam.AVP) bool = forall i int :: 0 <= i && i < len(l) ==> l[i] != nil
+//@ # some AVP among the first n of l is acceptable for application type typ
+//@ spec anyacc(l []*diam.AVP, n int, typ uint32, d *dict.Parser) bool = !(forall i int :: 0 <= i && i < n ==> !acceptable(l[i], typ, d))
+//@
+//@ func chooseErr(curAVP, curErr, oneFound, newAvp, newErr) (a, e, f)
+//@   property C11
+//@   pure
+//@   ensures ok_sets_found: newErr == nil ==> a == curAVP && e == curErr && f
+//@   ensures failure_keeps_found: newErr != nil ==> f == oneFound && e != nil && (e == newErr || e == curErr) && (curErr != nil ==> e == curErr || e == newErr)
+//@ end
+//@
+//@ func (*Application).validateAll(app, d, appType, appAVPs, localRole) (failedAVP, err)
+//@   property C11
+//@   requires app != nil && d != nil && listok(appAVPs) && (appType == 258 || appType == 259)
+//@   modifies app.id, app.id[len(app.id):cap(app.id)], fresh
+//@   ensures [C11] accepted_iff_some_acceptable: err == nil <==> anyacc(appAVPs, len(appAVPs), appType, d)
+//@   ensures [C11] ids_recorded_iff: len(app.id) >= old(len(app.id)) && (len(app.id) > old(len(app.id)) <==> anyacc(appAVPs, len(appAVPs), appType, d))
+//@   ensures [C11] ids_shared: forall k int :: old(len(app.id)) <= k && k < len(app.id) ==> relayorshared(d, app.id[k])
+//@   ensures kept: forall k int :: 0 <= k && k < old(len(app.id)) ==> app.id[k] == old(app.id[k])
+//@   ensures appended: grown(app.id, old(app.id))
+//@   ensures untouched_if_none: len(app.id) == old(len(app.id)) ==> same(app.id, old(app.id))
+//@   ensures cause: err != nil ==> err == ErrNoCommonApplication || err == ErrMissingApplication || typeis(err, *ErrUnexpectedAVP)
+//@   loop 0
+//@     invariant 0 - 1 <= rangeindex && rangeindex < len(appAVPs)
+//@     invariant [C11] found_iff: oneFound <==> anyacc(appAVPs, rangeindex + 1, appType, d)
+//@     invariant [C11] ids_iff: len(app.id) >= old(len(app.id)) && (len(app.id) > old(len(app.id)) <==> anyacc(appAVPs, rangeindex + 1, appType, d))
+//@     invariant [C11] shared: forall k int :: old(len(app.id)) <= k && k < len(app.id) ==> relayorshared(d, app.id[k])
+//@     invariant kept: forall k int :: 0 <= k && k < old(len(app.id)) ==> app.id[k] == old(app.id[k])
+//@     invariant appended: grown(app.id, old(app.id))
+//@     invariant untouched_if_none: len(app.id) == old(len(app.id)) ==> same(app.id, old(app.id))
+//@     invariant err_cause: err != nil ==> err == ErrNoCommonApplication || err == ErrMissingApplication || typeis(err, *ErrUnexpectedAVP)
+//@     invariant err_set: rangeindex >= 0 && !oneFound ==> err != nil
+//@   end
+//@ end
+//@
+//@ # a Vendor-Specific-Application-Id group is well formed / offers an acceptable application among its first n members
+//@ spec groupok(g *diam.AVP) bool = g != nil && (typeis(g.Data, *diam.GroupedAVP) ==> g.Data.(*diam.GroupedAVP) != nil && listok(g.Data.(*diam.GroupedAVP).AVP))
+//@ spec groupacc(g *diam.AVP, n int, d *dict.Parser) bool = typeis(g.Data, *diam.GroupedAVP) &&
+//@      !(forall j int :: 0 <= j && j < n ==> !(acceptable(g.Data.(*diam.GroupedAVP).AVP[j], 259, d) || acceptable(g.Data.(*diam.GroupedAVP).AVP[j], 258, d)))
+//@ spec vslen(g *diam.AVP) int = len(g.Data.(*diam.GroupedAVP).AVP)
+//@ # the same as one opaque predicate of the group (its definition is unfolded on request: hint accgroup.def(g, d))
+//@ hfun accgroup(g *diam.AVP, d *dict.Parser) bool reads diam.AVP.Code, diam.AVP.Data, diam.GroupedAVP, M:ref, dict.Parser.apptype, dict.Parser.appcode, dict.App.Type, map:dict.Parser.apptype, map:dict.Parser.appcode
+//@ hlemma accgroup: def: forall g *diam.AVP, d *dict.Parser :: accgroup(g, d) <==> groupacc(g, vslen(g), d)
+//@
+//@ func (*Application).ID(app) (r)
+//@   property C11
+//@   pure
+//@   requires app != nil
+//@   ensures same: sameslice(r, app.id) && cap(r) == cap(app.id)
+//@ end
+//@
+//@ func (*Application).handleGroup(app, d, gavp) (failedAVP, err)
+//@   property C11
+//@   requires app != nil && d != nil && groupok(gavp)
+//@   modifies app.id, app.id[len(app.id):cap(app.id)], fresh
+//@   posthint accgroup.def(gavp, d)
+//@   ensures [C11] acceptable_member_accepts: accgroup(gavp, d) ==> err == nil
+//@   ensures [C11] ids_recorded_iff: len(app.id) >= old(len(app.id)) && (len(app.id) > old(len(app.id)) <==> accgroup(gavp, d))
+//@   ensures [C11] ids_shared: forall k int :: old(len(app.id)) <= k && k < len(app.id) ==> relayorshared(d, app.id[k])
+//@   ensures kept: forall k int :: 0 <= k && k < old(len(app.id)) ==> app.id[k] == old(app.id[k])
+//@   ensures appended: grown(app.id, old(app.id))
+//@   ensures untouched_if_none: len(app.id) == old(len(app.id)) ==> same(app.id, old(app.id))
+//@   ensures cause: err != nil ==> err == ErrNoCommonApplication || err == ErrMissingApplication || typeis(err, *ErrUnexpectedAVP)
+//@   loop 0
+//@     invariant 0 - 1 <= rangeindex && rangeindex < vslen(gavp) && typeis(gavp.Data, *diam.GroupedAVP) && group == gavp.Data.(*diam.GroupedAVP)
+//@     invariant [C11] success_if: groupacc(gavp, rangeindex + 1, d) ==> success
+//@     invariant [C11] ids_iff: len(app.id) >= old(len(app.id)) && (len(app.id) > old(len(app.id)) <==> groupacc(gavp, rangeindex + 1, d))
+//@     invariant [C11] shared: forall k int :: old(len(app.id)) <= k && k < len(app.id) ==> relayorshared(d, app.id[k])
+//@     invariant kept: forall k int :: 0 <= k && k < old(len(app.id)) ==> app.id[k] == old(app.id[k])
+//@     invariant appended: grown(app.id, old(app.id))
+//@     invariant untouched_if_none: len(app.id) == old(len(app.id)) ==> same(app.id, old(app.id))
+//@     invariant err_cause: err != nil ==> err == ErrNoCommonApplication || err == ErrMissingApplication || typeis(err, *ErrUnexpectedAVP)
+//@   end
+//@ end
+//@
+//@ spec groupsok(l []*diam.AVP) bool = forall i int :: 0 <= i && i < len(l) ==> groupok(l[i])
+//@ spec anygroup(l []*diam.AVP, n int, d *dict.Parser) bool = !(forall i int :: 0 <= i && i < n ==> !accgroup(l[i], d))
+//@ # C11: the lists advertise at least one application the local dictionary shares
+//@ spec common(app *Application, d *dict.Parser) bool = anyacc(app.AcctApplicationID, len(app.AcctApplicationID), 259, d) ||
+//@      anyacc(app.AuthApplicationID, len(app.AuthApplicationID), 258, d) || anygroup(app.VendorSpecificApplicationID, len(app.VendorSpecificApplicationID), d)
+//@
+//@ func (*Application).Parse(app, d, localRole) (failedAVP, err)
+//@   property C11
+//@   requires app != nil && d != nil && listok(app.AcctApplicationID) && listok(app.AuthApplicationID) && groupsok(app.VendorSpecificApplicationID)
+//@   requires no_ids_yet: len(app.id) == 0 && cap(app.id) == 0 && app.id == nil
+//@   modifies app.id, fresh
+//@   ensures [C11] accepted_iff_common_application: err == nil <==> common(app, d)
+//@   ensures [C11] ids_nonempty: err == nil ==> len(app.id) > 0
+//@   ensures [C11] ids_shared: forall k int :: 0 <= k && k < len(app.id) ==> relayorshared(d, app.id[k])
+//@   ensures [C11] cause: err != nil ==> err == ErrNoCommonApplication || err == ErrMissingApplication || typeis(err, *ErrUnexpectedAVP)
+//@   loop 0
+//@     invariant 0 - 1 <= rangeindex && rangeindex < len(app.VendorSpecificApplicationID)
+//@     invariant [C11] ids_iff: len(app.id) > 0 <==> (anyacc(app.AcctApplicationID, len(app.AcctApplicationID), 259, d) ||
+//@          anyacc(app.AuthApplicationID, len(app.AuthApplicationID), 258, d) || anygroup(app.VendorSpecificApplicationID, rangeindex + 1, d))
+//@     invariant [C11] found_if: len(app.id) > 0 ==> oneFound
+//@     invariant [C11] shared: forall k int :: 0 <= k && k < len(app.id) ==> relayorshared(d, app.id[k])
+//@     invariant fresh_ids: len(app.id) >= 0 && (len(app.id) == 0 ==> app.id == nil && cap(app.id) == 0) && (cap(app.id) == 0 || fresh(app.id))
+//@     invariant err_kind: !oneFound ==> err != nil
+//@     invariant err_cause: err != nil ==> err == ErrNoCommonApplication || err == ErrMissingApplication || typeis(err, *ErrUnexpectedAVP)
+//@   end
+//@ end
+//@
+//@ # ======================= CER ===============================================
+//@ # What smparser relies on from Message.Unmarshal (reflection: not verified, see C18's bounded harness): it writes only
+//@ # the destination struct; AVP-pointer fields and lists point to non-nil AVPs; a Vendor-Specific-Application-Id that
+//@ # is a group has non-nil members; Inband-Security-Id, defined Unsigned32 by the dictionary, carries an Unsigned32.
+//@ ghost unmarshalled(*diam.Message) bool
+//@ spec cerwf(cer *CER) bool = listok(cer.AcctApplicationID) && listok(cer.AuthApplicationID) && groupsok(cer.VendorSpecificApplicationID) &&
+//@      (cer.InbandSecurityID != nil ==> typeis(cer.InbandSecurityID.Data, datatype.Unsigned32))
+//@ func (*diam.Message).Unmarshal(m, dst) (err)
+//@   property C11 C12 C13 C18
+//@   trusted
+//@   requires m != nil
+//@   modifies dst.(*CER).*, dst.(*CEA).*, dst.(*DWR).*, dst.(*DWA).*, unmarshalled(m)
+//@   ensures result_recorded: unmarshalled(m) <==> err == nil
+//@   ensures cer_shape: err == nil && typeis(dst, *CER) ==> cerwf(dst.(*CER))
+//@   ensures own_errors: err != ErrNoCommonSecurity && err != ErrNoCommonApplication && err != ErrMissingApplication
+//@ end
+//@
+//@ spec named(cer *CER) bool = len(cer.OriginHost) != 0 && len(cer.OriginRealm) != 0
+//@ spec wantssecurity(cer *CER) bool = cer.InbandSecurityID != nil && uint32(cer.InbandSecurityID.Data.(datatype.Unsigned32)) != 0
+//@ spec commoncer(cer *CER, d *dict.Parser) bool = anyacc(cer.AcctApplicationID, len(cer.AcctApplicationID), 259, d) ||
+//@      anyacc(cer.AuthApplicationID, len(cer.AuthApplicationID), 258, d) || anygroup(cer.VendorSpecificApplicationID, len(cer.VendorSpecificApplicationID), d)
+//@ spec dictof(m *diam.Message) *dict.Parser = m.dictionary != nil ? m.dictionary : dict.Default
+//@
+//@ func (*CER).sanityCheck(cer) (err)
+//@   property C11
+//@   pure
+//@   requires cer != nil
+//@   ensures [C11] named_iff: err == nil <==> named(cer)
+//@   ensures cause: err != nil ==> err == ErrMissingOriginHost || err == ErrMissingOriginRealm
+//@ end
+//@
+//@ func (*CER).Parse(cer, m, localRole) (failedAVP, err)
+//@   property C11
+//@   requires cer != nil && m != nil && (m.dictionary != nil ==> pwf(m.dictionary))
+//@   modifies cer.*, unmarshalled(m), fresh
+//@   ensures [C11] accepted_exactly_when: err == nil <==> unmarshalled(m) && named(cer) && !wantssecurity(cer) && commoncer(cer, dictof(m))
+//@   ensures [C11] shared_ids_recorded: err == nil ==> len(cer.appID) > 0 && (forall k int :: 0 <= k && k < len(cer.appID) ==> relayorshared(dictof(m), cer.appID[k]))
+//@   ensures [C11] security_cause_applies: err == ErrNoCommonSecurity ==> unmarshalled(m) && wantssecurity(cer)
+//@   ensures [C11] application_cause_applies: err == ErrNoCommonApplication ==> unmarshalled(m) && !commoncer(cer, dictof(m))
+//@ end
+//@
+//@ func (*CER).Applications(cer) (r)
+//@   property C11
+//@   pure
+//@   requires cer != nil
+//@   ensures same: sameslice(r, cer.appID) && cap(r) == cap(cer.appID)
+//@ end
